@@ -1,4 +1,5 @@
 import array
+import codecs
 import os
 import struct
 import sys
@@ -423,6 +424,8 @@ class continuous_frame:
         self.skip_utf8_validation = skip_utf8_validation
         self.cont_data: Optional[list] = None
         self.recving_frames: Optional[int] = None
+        # per-fragment delivery: UTF-8 state of the text message in progress
+        self.utf8_decoder = None
 
     def validate(self, frame: ABNF) -> None:
         if not self.recving_frames and frame.opcode == ABNF.OPCODE_CONT:
@@ -451,6 +454,24 @@ class continuous_frame:
         data = self.cont_data
         self.cont_data = None
         frame.data = data[1]
+        if self.fire_cont_frame and not self.skip_utf8_validation:
+            # fragments are handed over one by one: validate incrementally,
+            # a code point may be split across fragments
+            if data[0] == ABNF.OPCODE_TEXT:
+                self.utf8_decoder = codecs.getincrementaldecoder("utf-8")()
+            elif data[0] == ABNF.OPCODE_BINARY:
+                self.utf8_decoder = None
+            if self.utf8_decoder is not None:
+                decoder = self.utf8_decoder
+                if frame.fin:
+                    self.utf8_decoder = None
+                try:
+                    decoder.decode(frame.data, bool(frame.fin))
+                except UnicodeDecodeError:
+                    self.utf8_decoder = None
+                    raise WebSocketPayloadException(
+                        f"cannot decode: {repr(frame.data)}"
+                    )
         if (
             not self.fire_cont_frame
             and data[0] == ABNF.OPCODE_TEXT
